@@ -16,8 +16,14 @@ What is extracted (fail closed: any statement that is not recognised makes the d
  * gen_stream_read : HttpRangeStream.read as a list of SZeroEmpty (`if n == 0: return b""`) / SRequest (range_end, headers,
    session.get) / SRaiseForStatus / SAdvance (`self.range_start += n`) / SReturnContent, in statement order
  * gen_fetch_workers : the worker count CopcReader._fetch_all_chunks hands to both strategies, as a function of http_num_threads
+run and http_queue_strategy are read in a normal form (`canon` below: temporaries inlined, docstrings / annotations gone, ...) and up
+to the names of their locals: the names of the taken range, of the stream and of the caught exception are taken from the statements
+that bind them, the statements of http_queue_strategy are compared with the reference ones under one injective renaming of locals.
 """
 import ast
+import copy
+import keyword as _kw
+import re
 
 import py2v
 from py2v import Untranslatable
@@ -42,29 +48,503 @@ def is_call_stmt(st, text):
     return isinstance(st, ast.Expr) and norm(u(st)) == norm(text)
 
 
+# ======================================================================================================================
+# Behaviour-preserving normal form of a function + matching of source fragments up to a consistent renaming of locals.
+#   canon(f):  docstrings, annotations and logging calls dropped; a local helper whose body is one `return <expr>` inlined at
+#              its call sites; `not` pushed inwards (De Morgan, `not (a is b)` -> `a is not b`, `not (a in r)` -> `a not in r`);
+#              the `else`/`elif` part of an `if` whose body always leaves (continue/break/return/raise) lifted behind the `if`;
+#              `if not c: A else: B` -> `if c: B else: A`; a local bound once and read once, by the next statement and before
+#              anything with an effect is evaluated there, replaced by its defining expression.
+#              `try: t = E / except Empty|KeyError|..: <leaves>` followed by `a, b = t` (only read of t) -> the unpacking
+#              done in the try; a local that is never read is named `_`.
+#   Alpha:     token-wise comparison of unparsed source with reference fragments in which the reference's local names are
+#              variables: one injective renaming of the function's locals has to make ALL statements fit (parameters, attributes,
+#              keyword names, globals are never renamed).
+# Everything not understood is left as it is (so the fragments of the reference do not fit and the definition is MISSING).
+# ======================================================================================================================
+
+_LEAVE = (ast.Return, ast.Raise, ast.Continue, ast.Break)
+_OPAQUE = (ast.Lambda, ast.ListComp, ast.SetComp, ast.DictComp, ast.GeneratorExp, ast.Dict)
+_EFFECT = (ast.Call, ast.Await, ast.Yield, ast.YieldFrom, ast.NamedExpr)
+_FLIP = {ast.Is: ast.IsNot, ast.IsNot: ast.Is, ast.In: ast.NotIn, ast.NotIn: ast.In}
+
+
+def _blocks(node):
+    """every statement list below node (node's own included)"""
+    for n in ast.walk(node):
+        for field in ("body", "orelse", "finalbody"):
+            b = getattr(n, field, None)
+            if isinstance(b, list) and b and isinstance(b[0], ast.stmt):
+                yield b
+
+
+def _leaves(block):
+    if not block:
+        return False
+    last = block[-1]
+    if isinstance(last, _LEAVE):
+        return True
+    return isinstance(last, ast.If) and _leaves(last.body) and _leaves(last.orelse)
+
+
+def _is_log_call(s):
+    if not (isinstance(s, ast.Expr) and isinstance(s.value, ast.Call) and isinstance(s.value.func, ast.Attribute)):
+        return False
+    base = s.value.func.value
+    return isinstance(base, ast.Name) and base.id in ("logger", "logging", "log", "_logger", "LOGGER") and \
+        s.value.func.attr in ("debug", "info", "warning", "error", "exception", "critical", "log")
+
+
+def _strip(f):
+    for n in ast.walk(f):
+        if isinstance(n, (ast.FunctionDef, ast.AsyncFunctionDef)):
+            n.returns = None
+            a = n.args
+            for arg in a.posonlyargs + a.args + a.kwonlyargs + [x for x in (a.vararg, a.kwarg) if x is not None]:
+                arg.annotation = None
+    for b in _blocks(f):
+        new = []
+        for s in b:
+            if isinstance(s, ast.Expr) and isinstance(s.value, ast.Constant):
+                continue                                             # docstring / bare literal: no effect
+            if _is_log_call(s):
+                continue
+            if isinstance(s, ast.AnnAssign):
+                if s.value is None:
+                    continue
+                if isinstance(s.target, ast.Name):
+                    s = ast.copy_location(ast.Assign(targets=[s.target], value=s.value), s)
+            new.append(s)
+        b[:] = new or [ast.Pass()]
+
+
+def _nnf(e, truth=False):
+    """`not` pushed inwards; truth: only the truth value of e is used"""
+    if isinstance(e, ast.UnaryOp) and isinstance(e.op, ast.Not):
+        x = _nnf(e.operand, True)
+        if isinstance(x, ast.BoolOp):
+            dual = ast.Or() if isinstance(x.op, ast.And) else ast.And()
+            return ast.BoolOp(op=dual, values=[_nnf(ast.UnaryOp(op=ast.Not(), operand=v), True) for v in x.values])
+        if isinstance(x, ast.Compare) and len(x.ops) == 1 and type(x.ops[0]) in _FLIP:
+            return ast.Compare(left=x.left, ops=[_FLIP[type(x.ops[0])]()], comparators=x.comparators)
+        if isinstance(x, ast.UnaryOp) and isinstance(x.op, ast.Not) and truth:
+            return x.operand
+        return ast.UnaryOp(op=ast.Not(), operand=x)
+    if isinstance(e, ast.BoolOp):
+        return ast.BoolOp(op=e.op, values=[_nnf(v, truth) for v in e.values])
+    if isinstance(e, ast.IfExp):
+        return ast.IfExp(test=_nnf(e.test, True), body=_nnf(e.body, truth), orelse=_nnf(e.orelse, truth))
+    for field, v in ast.iter_fields(e):
+        if isinstance(v, ast.expr):
+            setattr(e, field, _nnf(v))
+        elif isinstance(v, list):
+            setattr(e, field, [_nnf(x) if isinstance(x, ast.expr) else _nnf_other(x) for x in v])
+        elif isinstance(v, ast.AST):
+            _nnf_other(v)
+    return e
+
+
+def _nnf_other(n):
+    """keyword / comprehension / slice-like helpers: normalise the expressions inside"""
+    if isinstance(n, ast.AST):
+        for field, v in ast.iter_fields(n):
+            if isinstance(v, ast.expr):
+                setattr(n, field, _nnf(v))
+            elif isinstance(v, list):
+                setattr(n, field, [_nnf(x) if isinstance(x, ast.expr) else _nnf_other(x) for x in v])
+    return n
+
+
+def _nnf_stmts(f):
+    for n in ast.walk(f):
+        if not isinstance(n, ast.stmt):
+            continue
+        for field, v in ast.iter_fields(n):
+            if isinstance(v, ast.expr):
+                setattr(n, field, _nnf(v, truth=field == "test"))
+            elif isinstance(v, list) and v and isinstance(v[0], ast.expr):
+                setattr(n, field, [_nnf(x) for x in v])
+            elif isinstance(v, list) and v and isinstance(v[0], ast.withitem):
+                for w in v:
+                    w.context_expr = _nnf(w.context_expr)
+
+
+def _negate(e):
+    return _nnf(ast.UnaryOp(op=ast.Not(), operand=e), True)
+
+
+def _is_not(e):
+    return isinstance(e, ast.UnaryOp) and isinstance(e.op, ast.Not)
+
+
+def _branches(f):
+    changed = False
+    for b in list(_blocks(f)):
+        i = 0
+        while i < len(b):
+            s = b[i]
+            if isinstance(s, ast.If) and s.orelse:
+                if _leaves(s.orelse) and not _leaves(s.body):
+                    s.test, s.body, s.orelse = _negate(s.test), s.orelse, s.body
+                    changed = True
+                if _leaves(s.body):
+                    b[i + 1:i + 1] = s.orelse
+                    s.orelse = []
+                    changed = True
+                elif _is_not(s.test):
+                    s.test, s.body, s.orelse = s.test.operand, s.orelse, s.body
+                    changed = True
+            i += 1
+    return changed
+
+
+def _name_counts(f):
+    loads, stores = {}, {}
+
+    def bump(d, k, n=1):
+        d[k] = d.get(k, 0) + n
+    for n in ast.walk(f):
+        if isinstance(n, ast.Name):
+            bump(loads if isinstance(n.ctx, ast.Load) else stores, n.id)
+        elif isinstance(n, ast.arg):
+            bump(stores, n.arg)
+        elif isinstance(n, ast.ExceptHandler) and n.name:
+            bump(stores, n.name)
+        elif isinstance(n, (ast.Global, ast.Nonlocal)):
+            for k in n.names:
+                bump(stores, k, 2)
+        elif isinstance(n, (ast.FunctionDef, ast.AsyncFunctionDef, ast.ClassDef)) and n is not f:
+            bump(stores, n.name)
+        elif isinstance(n, ast.alias):
+            bump(stores, (n.asname or n.name).split(".")[0])
+        if isinstance(n, ast.AugAssign) and isinstance(n.target, ast.Name):
+            bump(loads, n.target.id)
+    return loads, stores
+
+
+def _mentions(node, name):
+    return any(isinstance(m, ast.Name) and m.id == name for m in ast.walk(node))
+
+
+class _Use:
+    """is the single read of `name` in the expressions a statement evaluates first reached unconditionally and before any effect?"""
+
+    def __init__(self, name):
+        self.name, self.effect, self.verdict = name, False, None
+
+    def scan(self, e, cond=False):
+        if self.verdict is not None or e is None:
+            return
+        if isinstance(e, ast.Name):
+            if e.id == self.name and isinstance(e.ctx, ast.Load):
+                self.verdict = not (cond or self.effect)
+            return
+        if isinstance(e, _OPAQUE):
+            if _mentions(e, self.name):
+                self.verdict = False
+            elif any(isinstance(m, _EFFECT) for m in ast.walk(e)):
+                self.effect = True
+            return
+        if isinstance(e, ast.BoolOp):
+            self.scan(e.values[0], cond)
+            for v in e.values[1:]:
+                self.scan(v, True)
+            return
+        if isinstance(e, ast.IfExp):
+            self.scan(e.test, cond)
+            self.scan(e.body, True)
+            self.scan(e.orelse, True)
+            return
+        if isinstance(e, ast.Compare):
+            self.scan(e.left, cond)
+            self.scan(e.comparators[0], cond)
+            for v in e.comparators[1:]:
+                self.scan(v, True)
+            return
+        for child in ast.iter_child_nodes(e):
+            if isinstance(child, (ast.expr, ast.keyword, ast.Slice)):
+                self.scan(child, cond)
+        if isinstance(e, _EFFECT):
+            self.effect = True
+
+
+def _heads(s):
+    """the expressions statement s evaluates exactly once, first, in this order (None: unknown statement)"""
+    if isinstance(s, ast.Assign):
+        return [s.value] + s.targets
+    if isinstance(s, (ast.Expr, ast.Return)):
+        return [s.value]
+    if isinstance(s, ast.Raise):
+        return [s.exc, s.cause]
+    if isinstance(s, ast.If):
+        return [s.test]
+    if isinstance(s, ast.For):
+        return [s.iter]
+    if isinstance(s, ast.With):
+        return [s.items[0].context_expr]
+    return None
+
+
+class _Put(ast.NodeTransformer):
+    def __init__(self, table):
+        self.table = table
+
+    def visit_Name(self, node):
+        if isinstance(node.ctx, ast.Load) and node.id in self.table:
+            return copy.deepcopy(self.table[node.id])
+        return node
+
+
+def _inline_temps(f):
+    changed = False
+    loads, stores = _name_counts(f)
+    for b in list(_blocks(f)):
+        i = 0
+        while i + 1 < len(b):
+            s, nxt = b[i], b[i + 1]
+            if isinstance(s, ast.Assign) and len(s.targets) == 1 and isinstance(s.targets[0], ast.Name):
+                t = s.targets[0].id
+                heads = _heads(nxt)
+                if stores.get(t) == 1 and loads.get(t) == 1 and heads is not None and not _mentions(s.value, t):
+                    use = _Use(t)
+                    for h in heads:
+                        use.scan(h)
+                    if use.verdict:
+                        put = _Put({t: s.value})
+                        for field, v in list(ast.iter_fields(nxt)):
+                            if isinstance(v, ast.expr) and any(v is h for h in heads):
+                                setattr(nxt, field, put.visit(v))
+                            elif isinstance(v, list) and v and all(isinstance(x, ast.expr) for x in v):
+                                setattr(nxt, field, [put.visit(x) if any(x is h for h in heads) else x for x in v])
+                        if isinstance(nxt, ast.With):
+                            nxt.items[0].context_expr = put.visit(nxt.items[0].context_expr)
+                        del b[i]
+                        loads[t] = 0
+                        changed = True
+                        i = max(i - 1, 0)
+                        continue
+            i += 1
+    return changed
+
+
+def _simple_arg(e):
+    while isinstance(e, ast.Attribute):
+        e = e.value
+    return isinstance(e, (ast.Name, ast.Constant))
+
+
+def _inline_helpers(f):
+    changed = False
+    for b in list(_blocks(f)):
+        for s in list(b):
+            if not (isinstance(s, ast.FunctionDef) and s is not f and not s.decorator_list):
+                continue
+            a = s.args
+            if a.vararg or a.kwarg or a.kwonlyargs or a.defaults or a.kw_defaults:
+                continue
+            body = [x for x in s.body if not (isinstance(x, ast.Expr) and isinstance(x.value, ast.Constant))]
+            if len(body) != 1 or not isinstance(body[0], ast.Return) or body[0].value is None:
+                continue
+            expr = body[0].value
+            if any(isinstance(m, _OPAQUE[:-1] + (ast.NamedExpr, ast.Await, ast.Yield, ast.YieldFrom)) for m in ast.walk(expr)):
+                continue
+            params = [x.arg for x in a.posonlyargs + a.args]
+            loads, stores = _name_counts(f)
+            if stores.get(s.name) != 1:
+                continue
+            free = {m.id for m in ast.walk(expr) if isinstance(m, ast.Name)} - set(params)
+            late = [m for m in ast.walk(f) if isinstance(m, ast.Name) and not isinstance(m.ctx, ast.Load) and m.id in free
+                    and m.lineno >= s.lineno]
+            if late or any(stores.get(k, 0) > 1 for k in free):
+                continue                                             # what the helper reads may change between definition and call
+            calls = [m for m in ast.walk(f) if isinstance(m, ast.Call) and isinstance(m.func, ast.Name) and m.func.id == s.name]
+            if len(calls) != loads.get(s.name, 0) or not calls:
+                continue                                             # the helper is also passed around
+            if any(c.keywords or len(c.args) != len(params) or not all(_simple_arg(x) for x in c.args)
+                   or c.lineno <= s.end_lineno for c in calls):
+                continue
+            ids = {id(c): c for c in calls}
+
+            class _Calls(ast.NodeTransformer):
+                def visit_Call(self, node):
+                    node = self.generic_visit(node)
+                    if id(node) in ids:
+                        return _Put(dict(zip(params, node.args))).visit(copy.deepcopy(expr))
+                    return node
+            b.remove(s)
+            _Calls().visit(f)
+            changed = True
+    return changed
+
+
+_NOT_UNPACK_ERRORS = ("Empty", "KeyError", "IndexError", "StopIteration")
+
+
+def _try_tails(f):
+    """try: t = E / except <lookup error>: <leaves>   followed by   a, b = t   (the only read of t)
+       ->  try: a, b = E / except ...   — unpacking a name raises TypeError/ValueError only, which such a handler does not catch"""
+    changed = False
+    loads, stores = _name_counts(f)
+    for b in list(_blocks(f)):
+        for i in range(len(b) - 1):
+            s, nxt = b[i], b[i + 1]
+            if not (isinstance(s, ast.Try) and s.handlers and not s.orelse and not s.finalbody
+                    and all(isinstance(h.type, ast.Name) and h.type.id in _NOT_UNPACK_ERRORS and _leaves(h.body) for h in s.handlers)):
+                continue
+            last = s.body[-1]
+            if not (isinstance(last, ast.Assign) and len(last.targets) == 1 and isinstance(last.targets[0], ast.Name)):
+                continue
+            t = last.targets[0].id
+            if not (isinstance(nxt, ast.Assign) and isinstance(nxt.value, ast.Name) and nxt.value.id == t and len(nxt.targets) == 1
+                    and isinstance(nxt.targets[0], (ast.Tuple, ast.List)) and all(isinstance(x, ast.Name) for x in nxt.targets[0].elts)
+                    and loads.get(t) == 1 and stores.get(t) == 1):
+                continue
+            last.targets = nxt.targets
+            del b[i + 1]
+            return True
+    return changed
+
+
+def _dead_stores(f):
+    """a local that is never read is named `_`"""
+    loads, stores = _name_counts(f)
+    if loads.get("_"):
+        return
+    params = {n.arg for n in ast.walk(f) if isinstance(n, ast.arg)}
+    fixed = {k for n in ast.walk(f) if isinstance(n, (ast.Global, ast.Nonlocal)) for k in n.names}
+    for n in ast.walk(f):
+        if isinstance(n, ast.Name) and isinstance(n.ctx, ast.Store) and not loads.get(n.id) and n.id not in params | fixed:
+            n.id = "_"
+
+
+def canon(f):
+    f = copy.deepcopy(f)
+    _strip(f)
+    for _ in range(50):
+        _nnf_stmts(f)
+        if not (_inline_helpers(f) | _branches(f) | _try_tails(f) | _inline_temps(f)):
+            break
+    _dead_stores(f)
+    return ast.fix_missing_locations(f)
+
+
+_TOKEN = re.compile(r"""\s*(?:(?P<lit>[rbfuRBFU]{0,2}(?:'(?:[^'\\]|\\.)*'|"(?:[^"\\]|\\.)*")|\d[\w.]*)|(?P<id>[A-Za-z_]\w*)"""
+                    r"""|(?P<op>\*\*=?|//=?|<<=?|>>=?|[-+*/%&|^@<>=!:]=|->|\.\.\.|\S))""")
+
+
+def _tokens(text):
+    raw = [(m.lastgroup, m.group(m.lastgroup)) for m in _TOKEN.finditer(text) if m.lastgroup]
+    out, stack = [], []
+    for i, (k, t) in enumerate(raw):
+        if k == "op" and t in "([{":
+            stack.append(t)
+        elif k == "op" and t in ")]}" and stack:
+            stack.pop()
+        if k == "id":
+            prev = raw[i - 1][1] if i else ""
+            nxt = raw[i + 1][1] if i + 1 < len(raw) else ""
+            if prev == ".":
+                k = "attr"
+            elif nxt == "=" and stack and stack[-1] == "(" and prev in ("(", ","):
+                k = "kw"
+            elif _kw.iskeyword(t):
+                k = "key"
+        out.append((k, t))
+    return out
+
+
+def _bound_names(f):
+    top = f.args
+    params = {a.arg for a in top.posonlyargs + top.args + top.kwonlyargs + [x for x in (top.vararg, top.kwarg) if x]}
+    bound, fixed = set(), set(params)
+    for n in ast.walk(f):
+        if isinstance(n, ast.Name) and not isinstance(n.ctx, ast.Load):
+            bound.add(n.id)
+        elif isinstance(n, ast.arg):
+            bound.add(n.arg)
+        elif isinstance(n, ast.ExceptHandler) and n.name:
+            bound.add(n.name)
+        elif isinstance(n, (ast.FunctionDef, ast.AsyncFunctionDef)) and n is not f:
+            bound.add(n.name)
+        elif isinstance(n, (ast.Global, ast.Nonlocal)):
+            fixed.update(n.names)
+        elif isinstance(n, (ast.ClassDef, ast.alias)):
+            fixed.add(getattr(n, "asname", None) or n.name)
+    return bound - fixed - {"_"}
+
+
+class Alpha:
+    """f: a function in normal form; ref_locals: the local names of the reference that occur in the fragments"""
+
+    def __init__(self, f, ref_locals):
+        self.f = f
+        self.src = _tokens(ast.unparse(f))
+        self.renamable = _bound_names(f)
+        self.ref = set(ref_locals.split())
+        self.bind, self.inv = {}, {}
+
+    def _fit(self, needle, pos, bind, inv):
+        if pos + len(needle) > len(self.src):
+            return None
+        bind, inv = dict(bind), dict(inv)
+        for (nk, nt), (sk, st) in zip(needle, self.src[pos:pos + len(needle)]):
+            if nk == "id" and nt in self.ref:
+                if sk != "id" or st not in self.renamable:
+                    return None
+                if bind.setdefault(nt, st) != st or inv.setdefault(st, nt) != nt:
+                    return None
+            elif nk != sk or nt != st or (sk == "id" and st in self.renamable):
+                return None
+        return bind, inv
+
+    def fits(self, stmts, text):
+        """do the statements read like the reference text, under the renaming fixed so far (extended, and kept, on success)?"""
+        got = _tokens("\n".join(ast.unparse(x) for x in stmts))
+        want = _tokens(_fragment(text))
+        if len(got) != len(want):
+            return False
+        saved, self.src = self.src, got
+        r = self._fit(want, 0, self.bind, self.inv)
+        self.src = saved
+        if r is None:
+            return False
+        self.bind, self.inv = r
+        return True
+
+
+def _fragment(text):
+    """a reference fragment printed the way ast.unparse prints the source (when it is a complete statement list)"""
+    try:
+        return ast.unparse(ast.parse(text))
+    except SyntaxError:
+        return text
+
+
 # ------------------------------------------------------------------ worker
 def take_instr(st):
-    """recognise the statement that takes a range from the query queue; returns instr text or None"""
-    tgt = "offset,size="
+    """recognise the statement that takes a range from the query queue; returns (instr text, (offset name, size name)) or None"""
+    def unpacked(a):
+        if (isinstance(a, ast.Assign) and len(a.targets) == 1 and isinstance(a.targets[0], ast.Tuple) and len(a.targets[0].elts) == 2
+                and all(isinstance(x, ast.Name) for x in a.targets[0].elts)):
+            return tuple(x.id for x in a.targets[0].elts), norm(u(a.value))
+        return None, None
     if isinstance(st, ast.Try):
         if (len(st.body) == 1 and not st.orelse and not st.finalbody and len(st.handlers) == 1
                 and isinstance(st.handlers[0].type, ast.Name) and st.handlers[0].type.id == "Empty"
                 and len(st.handlers[0].body) == 1 and isinstance(st.handlers[0].body[0], ast.Break)):
-            s = norm(u(st.body[0]))
-            if s in (tgt + "self.query_queue.get_nowait()", tgt + "self.query_queue.get(False)",
-                     tgt + "self.query_queue.get(block=False)"):
-                return "ITake false"
+            names, s = unpacked(st.body[0])
+            if s in ("self.query_queue.get_nowait()", "self.query_queue.get(False)", "self.query_queue.get(block=False)"):
+                return "ITake false", names
         return None
-    if isinstance(st, ast.Assign):
-        s = norm(u(st))
-        if s in (tgt + "self.query_queue.get()", tgt + "self.query_queue.get(True)",
-                 tgt + "self.query_queue.get(block=True)"):
-            return "ITake true"
+    names, s = unpacked(st)
+    if s in ("self.query_queue.get()", "self.query_queue.get(True)", "self.query_queue.get(block=True)"):
+        return "ITake true", names
     return None
 
 
-def fetch_try(st, reader):
-    """the try statement around the request -> list of instrs (body, else, handler, finally, break)"""
+def fetch_try(st, reader, offset, size):
+    """the try statement around the request -> list of instrs (body, else, handler, finally, break).
+    offset, size: the names the taken range was unpacked into"""
     if not isinstance(st, ast.Try) or len(st.handlers) != 1:
         raise Untranslatable("worker: unexpected statement " + u(st)[:60])
     h = st.handlers[0]
@@ -72,17 +552,31 @@ def fetch_try(st, reader):
         raise Untranslatable("worker: handler is not `except Exception as e`")
     out = []
     body = list(st.body)
-    if len(body) < 2 or norm(u(body[0])) != norm(f"{reader}.seek(offset)") or norm(u(body[1])) != norm(f"data={reader}.read(size)"):
+    read = f"{reader}.read({size})"
+    if len(body) < 2 or norm(u(body[0])) != norm(f"{reader}.seek({offset})"):
         raise Untranslatable("worker: request is not seek(offset); data = read(size)")
-    out.append("IFetch")
+    if (isinstance(body[1], ast.Assign) and len(body[1].targets) == 1 and isinstance(body[1].targets[0], ast.Name)
+            and norm(u(body[1].value)) == norm(read)):
+        data = body[1].targets[0].id
+        out.append("IFetch")
+        rest = body[2:]
+    elif is_call_stmt(body[1], f"self.result_queue.put(({read}, {offset}))"):
+        # normal form of `data = read(size); put((data, offset))` when data is not used again
+        data = None
+        out += ["IFetch", "IPutResult"]
+        rest = body[2:]
+    else:
+        raise Untranslatable("worker: request is not seek(offset); data = read(size)")
+    if len({reader, offset, size, data, h.name}) != 5:
+        raise Untranslatable("worker: a name is used for two things")
 
     def success_only(stmts):
         for s in stmts:
-            if is_call_stmt(s, "self.result_queue.put((data, offset))"):
+            if data is not None and is_call_stmt(s, f"self.result_queue.put(({data}, {offset}))"):
                 out.append("IPutResult")
             else:
                 raise Untranslatable("worker: statement on the success path: " + u(s)[:60])
-    success_only(body[2:])
+    success_only(rest)
     success_only(st.orelse)
     brk = False
     for s in h.body:
@@ -109,7 +603,7 @@ def worker_prog(repo):
     cls = py2v.find_class(mod, "HttpFetcherThread")
     if [u(b) for b in cls.bases] != ["Thread"]:
         raise Untranslatable("HttpFetcherThread is not a Thread")
-    run = py2v.find_func(cls, "run")
+    run = canon(py2v.find_func(cls, "run"))       # normal form: temporaries inlined, comments / annotations gone
     if len(run.body) != 1 or not isinstance(run.body[0], ast.With):
         raise Untranslatable("run: expected a single with statement")
     w = run.body[0]
@@ -127,20 +621,20 @@ def worker_prog(repo):
         instrs.append("ITestEmpty")
     else:
         raise Untranslatable("run: loop test " + u(loop.test))
-    seen_take = False
+    seen_take = None
     for st in loop.body:
         t = take_instr(st)
         if t is not None:
             if seen_take:
                 raise Untranslatable("run: two takes in one iteration")
-            seen_take = True
-            instrs.append(t)
+            seen_take = t[1]
+            instrs.append(t[0])
         elif is_call_stmt(st, "self.query_queue.task_done()"):
             instrs.append("ITaskDone")
         else:
             if not seen_take:
                 raise Untranslatable("run: request before a range was taken")
-            instrs += fetch_try(st, reader)
+            instrs += fetch_try(st, reader, *seen_take)
     if not seen_take:
         raise Untranslatable("run: no take")
     return instrs
@@ -153,40 +647,31 @@ def main_prog(repo):
     args = [a.arg for a in f.args.args]
     if args != ["source", "byte_queries", "out_compressed_bytes", "num_threads"]:
         raise Untranslatable("http_queue_strategy signature")
-    body = [s for s in f.body if not (isinstance(s, ast.Expr) and isinstance(s.value, ast.Constant))]
-    prog = []
-    i = 0
-
-    def peek(k=0):
-        return norm(u(body[i + k])) if i + k < len(body) else ""
-    if peek() != "query_queue=Queue()" or peek(1) != "result_queue=SimpleQueue()":
+    f = canon(f)                                   # normal form; the reference statements below are those of the normal form
+    al = Alpha(f, "query_queue result_queue query results result x citer group_bytes")     # locals: any consistent renaming
+    body = f.body
+    start = "for _ in range({n}):\n    HttpFetcherThread(source.url, query_queue, result_queue).start()"
+    known = [
+        ("MPutAll", 1, "for query in byte_queries:\n    query_queue.put(query)"),
+        ("MStart true", 1, start.format(n="min(len(byte_queries), num_threads)")),
+        ("MStart false", 1, start.format(n="num_threads")),
+        ("MJoin", 1, "query_queue.join()"),
+        ("MDrain", 2, "results = []\nwhile not result_queue.empty():\n    result = result_queue.get()\n"
+                      "    if isinstance(result, Exception):\n        raise result\n    results.append(result)"),
+        ("MSort", 1, "results.sort(key=lambda x: x[1])"),
+        ("MAssemble", 2, "citer = ChunkIter(out_compressed_bytes)\nfor group_bytes, _ in results:\n"
+                         "    citer.next(len(group_bytes))[:] = group_bytes"),
+    ]
+    if not al.fits(body[:2], "query_queue = Queue()\nresult_queue = SimpleQueue()"):
         raise Untranslatable("main: queues are not Queue() / SimpleQueue()")
+    prog = []
     i = 2
     while i < len(body):
-        s = peek()
-        if s == norm("for query in byte_queries:\n    query_queue.put(query)"):
-            prog.append("MPutAll")
-            i += 1
-        elif s == norm("for _ in range(min(len(byte_queries), num_threads)):\n    HttpFetcherThread(source.url, query_queue, result_queue).start()"):
-            prog.append("MStart true")
-            i += 1
-        elif s == norm("for _ in range(num_threads):\n    HttpFetcherThread(source.url, query_queue, result_queue).start()"):
-            prog.append("MStart false")
-            i += 1
-        elif s == "query_queue.join()":
-            prog.append("MJoin")
-            i += 1
-        elif s == "results=[]" and peek(1) == norm(
-                "while not result_queue.empty():\n    result = result_queue.get()\n    if isinstance(result, Exception):\n        raise result\n    results.append(result)"):
-            prog.append("MDrain")
-            i += 2
-        elif s == norm("results.sort(key=lambda x: x[1])"):
-            prog.append("MSort")
-            i += 1
-        elif s == "citer=ChunkIter(out_compressed_bytes)" and peek(1) == norm(
-                "for group_bytes, _ in results:\n    cc = citer.next(len(group_bytes))\n    cc[:] = group_bytes"):
-            prog.append("MAssemble")
-            i += 2
+        for instr, k, text in known:
+            if i + k <= len(body) and al.fits(body[i:i + k], text):
+                prog.append(instr)
+                i += k
+                break
         else:
             raise Untranslatable("main: unexpected statement " + u(body[i])[:70])
     return prog
